@@ -47,6 +47,8 @@ def adversarial():
         # natural-language maps together with types in the range: the language-map accessors are there all the same
         prop("x0caption", [own("X0Base"), as_ref("Note")], ["xsd:string", "rdf:langString", as_ref("Object"), own("X0Left")]),
         prop("x0label", [own("X0Right")], [own("X0Base"), "rdf:langString", "xsd:string"], functional=True),
+        # a range that lists a type together with one of its own descendants (and the descendant first)
+        prop("x0packed", [own("X0Base"), as_ref("Note")], [own("X0Left"), own("X0Base"), "xsd:string"]),
     ]
     ctx = gen(1)[0]["@context"]
     return {"@context": ctx, "id": ns, "type": "owl:Ontology", "name": "Ext0", "members": members}, ["X0Base", "X0Left", "X0Right", "X0Bottom", "X0Deep", "X0Mixed", "X0Deeper", "X0Trip", "X0Ask"], ns
